@@ -416,6 +416,45 @@ func C18(r *eng.Run) {
 	})
 	r.Phase("powers of ten x integer exponents in every encoding", t0, nil)
 
+	// word-structured coefficients (a 64-bit word zero / all ones / at a decimal limit) as base and as exponent:
+	// the 192-bit helpers behind log, mul and e^x test and carry word by word
+	t0 = time.Now()
+	var xw, yw, xfew, yfew []ref.Bits
+	for _, K := range WordShapes() {
+		L := len(K.String())
+		for _, sh := range []int{-L, -L + 1, -L - 1, -L - 20, 0} {
+			addTo(&xw, false, K, sh)
+		}
+		for _, sh := range []int{-L, -L + 1, -L + 2, -L - 5, -L - 30} {
+			addTo(&yw, false, K, sh)
+			if sh == -L {
+				addTo(&yw, true, K, sh)
+			}
+		}
+	}
+	for _, s := range []string{"2", "3", "-2", "1.5", "0.1", "10", "33.33", "1e-20", "-0.75", "123456789"} {
+		l, _ := ref.ParseLit(s)
+		addTo(&yfew, l.Neg, l.C, l.Q)
+	}
+	for _, s := range []string{"2", "0.5", "3", "1.1", "0.9", "1.000000000000000000000000000000001", "0.9999999999999999999999999999999999", "10.00000000000000000000000000000001", "7e-100", "12345678901234567890e40"} {
+		l, _ := ref.ParseLit(s)
+		addTo(&xfew, l.Neg, l.C, l.Q)
+	}
+	xw, yw = uniqBits(xw), uniqBits(yw)
+	r.Bounds["word_structured_bases"] = len(xw)
+	r.Bounds["word_structured_exponents"] = len(yw)
+	r.Par(len(xw), func(w *eng.W, i int) {
+		for _, y := range yfew {
+			checkPow(w, xw[i], y)
+		}
+	})
+	r.Par(len(yw), func(w *eng.W, i int) {
+		for _, x := range xfew {
+			checkPow(w, x, yw[i])
+		}
+	})
+	r.Phase("word-structured bases and exponents", t0, nil)
+
 	// exponents that land the power at the thresholds: y = ln(T)/ln(x) rounded to 34 digits +- few ulps
 	t0 = time.Now()
 	c := hp.Get(hpP2)
